@@ -45,13 +45,15 @@ type c16DrvSpec struct {
 	Kind    string `json:"kind"`
 	ProbeOk bool   `json:"probeOk"`
 	InitOk  bool   `json:"initOk"`
-	Say     int    `json:"say"` // injected bytes written during DriverInit
-	NL      int    `json:"nl"`  // >0: a line feed after that many of them
+	Say     int    `json:"say"`    // injected bytes written during DriverInit
+	NL      int    `json:"nl"`     // >0: a line feed after that many of them
+	Direct  int    `json:"direct"` // injected bytes the driver logs with kfmt.Printf itself during DriverInit
 }
 
 type c16Print struct {
-	At  int `json:"at"` // 0: before DetectHardware; j: inside the j-th probe call; n+1: after DetectHardware
-	Len int `json:"len"`
+	At   int `json:"at"` // 0: before DetectHardware; j: inside the j-th probe call; n+1: after DetectHardware
+	Len  int `json:"len"`
+	Fill int `json:"fill"` // >0: one ASCII byte (text, blank, line feed, tab) after every Fill injected bytes
 }
 
 type c16Scenario struct {
@@ -85,9 +87,27 @@ func (r *c16Run) inject(n int) (int, []byte) {
 	return from, b
 }
 
-func (r *c16Run) print(n int) {
+func (r *c16Run) print(n, fill int) {
 	from, b := r.inject(n)
 	r.emit(c16Ev{"k": "print", "from": from, "len": n})
+	if fill > 0 { // ordinary log text around the injected bytes (no backspace / carriage return: they edit the terminal)
+		const text = " .-abz,:"
+		out := make([]byte, 0, n+n/fill+1)
+		for i, c := range b {
+			out = append(out, c)
+			if (i+1)%fill == 0 {
+				switch k := from + i; {
+				case k%97 == 0:
+					out = append(out, '\n')
+				case k%13 == 0:
+					out = append(out, '\t')
+				default:
+					out = append(out, text[k%len(text)])
+				}
+			}
+		}
+		b = out
+	}
 	kfmt.Printf("%s", b)
 }
 
@@ -113,6 +133,9 @@ func (d *c16Base) verifID() int                            { return d.id }
 func (d *c16Base) DriverName() string                      { return d.name }
 func (d *c16Base) DriverVersion() (uint16, uint16, uint16) { return 1, 2, 3 }
 func (d *c16Base) DriverInit(w io.Writer) *kernel.Error {
+	if d.spec.Direct > 0 {
+		d.run.print(d.spec.Direct, 0)
+	}
 	from, b := d.run.inject(d.spec.Say)
 	d.run.emit(c16Ev{"k": "init", "id": d.id, "from": from, "len": d.spec.Say, "ok": d.spec.InitOk})
 	if len(b) > 0 {
@@ -246,7 +269,7 @@ func c16Scenario1(t *testing.T, enc *json.Encoder, sc *c16Scenario, tag interfac
 			r.emit(c16Ev{"k": "probe", "id": id})
 			for _, p := range sc.Prints {
 				if p.At == r.probes {
-					r.print(p.Len * sc.Unit)
+					r.print(p.Len*sc.Unit, p.Fill)
 				}
 			}
 			if !probeOk {
@@ -265,18 +288,18 @@ func c16Scenario1(t *testing.T, enc *json.Encoder, sc *c16Scenario, tag interfac
 		}()
 		for _, p := range sc.Prints {
 			if p.At <= 0 {
-				r.print(p.Len * sc.Unit)
+				r.print(p.Len*sc.Unit, p.Fill)
 			}
 		}
 		DetectHardware()
 		for _, p := range sc.Prints {
 			if p.At > n {
-				r.print(p.Len * sc.Unit)
+				r.print(p.Len*sc.Unit, p.Fill)
 			}
 		}
 		wEnd = kfmt.VerifC16EarlyWIndex()
 		// one last chunk in every scenario: whatever is the log sink now must still receive output
-		r.print(3)
+		r.print(3, 0)
 	}()
 
 	// final observation
@@ -397,6 +420,8 @@ func TestVerifC16HalRandom(t *testing.T) {
 		pairs := rng.Intn(3) == 0 // several terminals and consoles, in every order relative to each other and to failing drivers
 		if pairs {
 			nd = 3 + rng.Intn(5)
+		} else if rng.Intn(12) == 0 {
+			nd = 9 + rng.Intn(16) // beyond the insertion-sort threshold of sort.Sort
 		}
 		for j := 0; j < nd; j++ {
 			d := c16DrvSpec{Kind: kinds[rng.Intn(3)], ProbeOk: rng.Intn(6) != 0, InitOk: rng.Intn(4) != 0}
@@ -419,6 +444,9 @@ func TestVerifC16HalRandom(t *testing.T) {
 			default:
 				d.Say = 100 + rng.Intn(400)
 			}
+			if rng.Intn(5) == 0 {
+				d.Direct = 1 + rng.Intn(50)
+			}
 			s.Drv = append(s.Drv, d)
 		}
 		heavy := rng.Intn(3) == 0 // scenarios that overflow the 2047-byte ring before the link
@@ -431,6 +459,9 @@ func TestVerifC16HalRandom(t *testing.T) {
 				p.Len = 100 + rng.Intn(500)
 			default:
 				p.Len = 1200 + rng.Intn(1500)
+			}
+			if rng.Intn(3) == 0 {
+				p.Fill = 1 + rng.Intn(40)
 			}
 			s.Prints = append(s.Prints, p)
 		}
